@@ -1,5 +1,6 @@
 import DnpProofs.Lemmas.Sort
 import DnpProofs.Lemmas.ByName
+import DnpProofs.Lemmas.ByName2
 set_option linter.unusedSectionVars false
 /-!
 # C02 — relabelling operations keep each value attached to its coordinates
@@ -90,6 +91,22 @@ theorem concatenate_spec {d b r : Data κ α} {dim : String} (h : d.Consistent) 
       r.getN ℓ = if ℓ dim < d.ext dim then d.getN ℓ
                  else b.getN (fun x => if x = dim then ℓ dim - d.ext dim else ℓ x) :=
   concatenate_byname h hb hr
+
+/-- squeeze: dimensions of extent one go together with their coordinates; every value stays at its labels -/
+theorem squeeze_spec {d : Data κ α} (h : d.Consistent) :
+    (∃ keep : List Nat, d.squeeze.dims = keep.map (fun k => d.dims.getD k "") ∧
+                        d.squeeze.coords = keep.map (fun k => d.coords.getD k [])) ∧
+    ∀ ℓ : String → Nat, (∀ nm ∈ d.dims, ℓ nm < d.ext nm) → d.squeeze.getN ℓ = d.getN ℓ :=
+  squeeze_byname h
+
+/-- split(dim, new, c) with |c| = k: position a·k + b along `dim` becomes (dim ↦ a, new ↦ b), all other labels untouched -/
+theorem split_spec {d r : Data κ α} {dim new : String} {c : List κ} (h : d.Consistent)
+    (hr : d.split dim new c = .ok r) :
+    r.dims = d.dims.filter (· != dim) ++ [dim, new] ∧
+    d.ext dim = d.ext dim / c.length * c.length ∧
+    ∀ ℓ : String → Nat, (∀ nm ∈ d.dims, nm ≠ dim → ℓ nm < d.ext nm) → ℓ dim < d.ext dim / c.length → ℓ new < c.length →
+      r.getN ℓ = d.getN (fun x => if x = dim then ℓ dim * c.length + ℓ new else ℓ x) :=
+  split_byname h hr
 
 /-- unfold then fold gives back the very same object — every rank, every position of the dimension -/
 theorem unfold_fold_spec (arange : Nat → List κ) {d : Data κ α} {dim : String} (h : d.Consistent)
